@@ -206,14 +206,34 @@ func (s *capSender) Send(tg []byte) {
 type capService struct {
 	s         *capSender
 	slowFirst time.Duration
+	holdUntil int32 // the first delivery is held until this many groups have been handed to the sender (or 5 s)
+	handed    *int32
 	n         int32
 }
 
 func (c *capService) SendReplicationMessage(tg []byte) {
-	if atomic.AddInt32(&c.n, 1) == 1 && c.slowFirst > 0 {
-		time.Sleep(c.slowFirst)
+	if atomic.AddInt32(&c.n, 1) == 1 {
+		if c.slowFirst > 0 {
+			time.Sleep(c.slowFirst)
+		}
+		deadline := time.Now().Add(5 * time.Second)
+		for c.holdUntil > 0 && atomic.LoadInt32(c.handed) < c.holdUntil && time.Now().Before(deadline) {
+			time.Sleep(time.Millisecond)
+		}
 	}
 	c.s.Send(tg)
+}
+
+// countingSender is what the WAL sees: the real replication.Sender, with the hand-overs counted
+type countingSender struct {
+	inner  *replication.Sender
+	handed int32
+}
+
+func (c *countingSender) Run(ctx context.Context) { c.inner.Run(ctx) }
+func (c *countingSender) Send(tg []byte) {
+	c.inner.Send(tg)
+	atomic.AddInt32(&c.handed, 1)
 }
 
 var realSenderCancel context.CancelFunc
@@ -224,6 +244,7 @@ func replRealSender(c *drv.Ctx, o *drv.Op) drv.Obs {
 	var a struct {
 		Off         bool `json:"off"`
 		SlowFirstMs int  `json:"slow_first_ms"`
+		HoldUntil   int  `json:"hold_first_until"`
 	}
 	_ = json.Unmarshal(o.X, &a)
 	if realSenderCancel != nil {
@@ -234,11 +255,13 @@ func replRealSender(c *drv.Ctx, o *drv.Op) drv.Obs {
 		master.WAL.ReplicationSender = sender
 		return drv.Obs{"ok": true}
 	}
-	rs := replication.NewSender(&capService{s: sender, slowFirst: time.Duration(a.SlowFirstMs) * time.Millisecond})
+	cs := &countingSender{}
+	cs.inner = replication.NewSender(&capService{s: sender, slowFirst: time.Duration(a.SlowFirstMs) * time.Millisecond,
+		holdUntil: int32(a.HoldUntil), handed: &cs.handed})
 	var ctx context.Context
 	ctx, realSenderCancel = context.WithCancel(context.Background())
-	rs.Run(ctx)
-	master.WAL.ReplicationSender = rs
+	cs.Run(ctx)
+	master.WAL.ReplicationSender = cs
 	return drv.Obs{"ok": true}
 }
 
